@@ -11,6 +11,12 @@ Genuine defects found at the pinned commit (KNOWN_FINDINGS.jsonl, proposed/fix-C
   C27:documented-unit-rejected:(bandwidth|size):K(B|b)(ps)?   XML_reference.rst writes the decimal kilo "K" (KBps, Kbps:
                                  "1 KBps = 1,000 Bps"), the parser only knows "k"
   C27:documented-unit-rejected:speed:zettaflops               simgrid.dtd documents 'zettaflops', the parser builds "zetaflops"
+
+Mutation evidence (tools/mutbuild.sh lib, quick tier, each mutant built and the check run against it):
+  caught  binary prefixes multiplied by 1000 instead of 1024 (KiBps == kBps)            -> wrong-magnitude, 20 signatures
+  caught  "us" given the factor 1e-9                                                   -> '1us' parsed to 1e-09
+  caught  unknown unit silently ignored (return the bare number)                       -> malformed literals accepted
+  the proposed fix (proposed/fix-C27-documented-units.diff) applied: the check passes with no known finding left.
 """
 import json, os
 from fractions import Fraction
@@ -18,6 +24,9 @@ import vlib
 import lib_common as L
 
 LEVEL = "exploration"
+META = {"text": "Table oracle: spec/lib/Units.tla holds the documented unit tables (time, size, bandwidth, speed; decimal and binary prefixes; bits vs bytes) as exact multipliers m*10^a*2^b and TLC enumerates every (number format x unit x prefix) case with its exact expected value plus a family of malformed literals; each case is run through xbt_parse_get_time/size/bandwidth/speed and compared within 4 ulp (worst observed: 1 ulp) or must raise ParseError. Level exploration: the table is covered exhaustively, numbers are a finite sample of each format (91 fixed + seeded random ones), and string rendering / floating-point comparison are outside TLA+.",
+        "note": "Trusted: TLC's evaluation of the table, the harness's rendering of literals and its exact-rational to double conversion (Python fractions). Units accepted beyond the documented lists (Z/Y on sizes and bandwidths, K on sizes) may be rejected. Known findings: XML_reference.rst's KBps/Kbps and simgrid.dtd's zettaflops are rejected by the parser.",
+        "technique": "TLC enumeration of a TLA+ table specification (G) + driver comparison of doubles"}
 DRIVERS = {"c27drv": L.DRIVERS["c27drv"]}
 ULPS = 4
 
